@@ -283,6 +283,58 @@ pub fn drive_histories(t: &Tier, sink: &mut Sink, profile: Profile, cf: &'static
     }
 }
 
+/// C18, deterministic part: reserve / shrink_to_fit / with_capacity at lengths on and next to every
+/// 64-bit boundary and the inline limit, with one word, less than a word and several words to spare.
+pub fn drive_c18_targeted(t: &Tier, sink: &mut Sink, stats: &mut Stats) {
+    let lens = [0usize, 1, 63, 64, 65, 127, 128, 129, 191, 192, 193, 255, 256, 257];
+    let extras = [0usize, 1, 63, 64, 65, 128, 200];
+    for kind in [Kind::D, Kind::A] {
+        for (li, n) in lens.iter().copied().enumerate() {
+            for (ei, extra) in extras.iter().copied().enumerate() {
+                if t.quick && (li + ei) % 2 == 1 {
+                    continue;
+                }
+                let start: Bits = (0..n).map(|i| ((i * 7 + n) % 3 != 0) as u8).collect();
+                // three ways of obtaining spare capacity, then shrink_to_fit, then growth again
+                let recipes: [Vec<Step>; 3] = [
+                    vec![Step::new("reserve").a(Args::n(extra)), Step::new("shrink_to_fit"), Step::new("push").a(Args { bit: Some(1), ..Default::default() }),
+                         Step::new("pop"), Step::new("shrink_to_fit"), Step::new("reserve").a(Args::n(1))],
+                    vec![Step::new("resize").a(Args { n: Some((n + extra) as u128), bit: Some(1), ..Default::default() }), Step::new("truncate").a(Args::n(n)),
+                         Step::new("shrink_to_fit"), Step::new("resize").a(Args { n: Some((n + 3) as u128), bit: Some(0), ..Default::default() })],
+                    vec![Step::new("push").a(Args { bit: Some(0), ..Default::default() }), Step::new("pop"), Step::new("shrink_to_fit"),
+                         Step::new("reserve").a(Args::n(extra)), Step::new("shrink_to_fit")],
+                ];
+                for recipe in recipes.iter() {
+                    let mut x = AnyBv::fresh(kind, &start);
+                    let mut evs = Vec::new();
+                    let mut nb = 1u8;
+                    for st in recipe {
+                        let pre = observe(&x);
+                        let (o, py, yd, results) = run_step(&mut x, st);
+                        let post = observe(&x);
+                        let mut ev = base_event(st, nb, "cap", t.dbg, &x, &pre, yd, &post, py, &o);
+                        ev["pr"] = json!(probes(&x, &o, &results));
+                        evs.push(ev);
+                        stats.execs += 1;
+                        nb = 0;
+                    }
+                    // with_capacity(c): empty, capacity >= c
+                    let c = n + extra;
+                    let mut w = AnyBv::fresh(kind, &[]);
+                    let st = Step::new("with_capacity").a(Args::n(c));
+                    let pre = observe(&w);
+                    let (o, py, yd, _) = run_step(&mut w, &st);
+                    let post = observe(&w);
+                    evs.push(base_event(&st, 1, "cap", t.dbg, &w, &pre, yd, &post, py, &o));
+                    stats.execs += 1;
+                    stats.histories += 1;
+                    sink.emit(evs);
+                }
+            }
+        }
+    }
+}
+
 #[derive(Default)]
 pub struct Stats {
     pub execs: u64,
@@ -516,11 +568,11 @@ pub fn drive_c10(t: &Tier, sink: &mut Sink, stats: &mut Stats) {
                 let mut b = v.clone();
                 b.extend(std::iter::repeat(0).take(pad));
                 let preps: &[Prep] = match kind {
-                    Kind::A => &[Prep::Fresh, Prep::Heap, Prep::Spare, Prep::Shrunk],
-                    Kind::D => &[Prep::Fresh, Prep::Spare, Prep::Shrunk, Prep::Reserved],
-                    _ => &[Prep::Fresh, Prep::Shrunk, Prep::Pushed],
+                    Kind::A => &[Prep::Fresh, Prep::Heap, Prep::Summed, Prep::Spare, Prep::Shrunk],
+                    Kind::D => &[Prep::Fresh, Prep::Spare, Prep::Summed, Prep::Shrunk, Prep::Reserved],
+                    _ => &[Prep::Fresh, Prep::Summed, Prep::Shrunk, Prep::Pushed],
                 };
-                for prep in preps.iter().copied().take(if t.quick { 2 } else { 4 }) {
+                for prep in preps.iter().copied().take(if t.quick { 3 } else { 5 }) {
                     let (x, ok) = make(kind, &b, prep);
                     let pre = observe(&x);
                     let mut xc = x.clone();
@@ -711,12 +763,26 @@ pub fn drive_c19(t: &Tier, m: &mut Matrix, sink: &mut Sink) {
             }
         }
         // conversions from longer vectors of the other implementations
-        for src in [Kind::D, Kind::A, Kind::F128x4, Kind::F8x3] {
+        // growth of an EMPTY (and of a nearly empty) fixed vector by an operand that alone exceeds the capacity
+        for n in [0usize, 1] {
+            for yl in [cap + 1, cap + 8, 2 * cap, cap] {
+                let y = ones(yl);
+                let x = ones(n);
+                sink.emit(m.run(&one(Case::new("append", x.clone()).y(YSpec::Bits(y.clone())))));
+                sink.emit(m.run(&one(Case::new("prepend", x.clone()).y(YSpec::Bits(y.clone())))));
+                sink.emit(m.run(&one(Case::new("insert", x.clone()).y(YSpec::Bits(y.clone())).a(Args { i: Some(0), ..Default::default() }))));
+                sink.emit(m.run(&one(Case::new("extend", x.clone()).a(Args { bits: Some(y.clone()), ..Default::default() }))));
+                sink.emit(m.run(&one(Case::new("resize", x.clone()).a(Args { n: Some(yl as u128), bit: Some(0), ..Default::default() }))));
+            }
+        }
+        for src in [Kind::D, Kind::A, Kind::F128x4, Kind::F8x3, Kind::F16x4, Kind::Fux4] {
             for n in [cap - 1, cap, cap + 1, cap + 70] {
                 if src.admits(n) {
                     for byval in [false, true] {
-                        let c = Case::new("convert", ones(n)).y(YSpec::Target(kind)).a(Args { byval, ..Default::default() }).xk(vec![src]).cf("sig");
-                        sink.emit(m.run(&c));
+                        for val in [ones(n), zeros(n), { let mut v = zeros(n); if n > 0 { v[0] = 1; } v }] {
+                            let c = Case::new("convert", val).y(YSpec::Target(kind)).a(Args { byval, ..Default::default() }).xk(vec![src]).cf("sig");
+                            sink.emit(m.run(&c));
+                        }
                     }
                 }
             }
